@@ -357,6 +357,11 @@ impl<P: Protocol> Sim<P> {
         (out, tagerr, res, mt, info)
     }
 
+    /// classified result of a driver call (needs tracing switched on: the hook's event log is read per call)
+    pub fn result_class(&self, res: &CallResult) -> String {
+        self.classify(&res.evs, &res.sent, res.panicked).2
+    }
+
     fn trace_call(&mut self, op: &str, i: usize, res: &CallResult, extra: Value) {
         if self.trace.is_none() {
             return;
@@ -471,6 +476,13 @@ impl<P: Protocol> Sim<P> {
                 None => return, // nobody listens there
             },
         };
+        // a node behind an address translation is reachable through the translated address only: what others send to its
+        // private socket address goes nowhere (otherwise a peer that dials both addresses meets one handshake object with
+        // two of its own, and the replies to both come back from the translated address)
+        if self.seen_as.contains_key(&to) && d.to == addr_of(to) && d.from != to {
+            self.dropped_by_net += 1;
+            return;
+        }
         let src = match self.hairpin.get(&(d.from, d.to)) {
             Some(a) => *a,
             None => self.seen_as.get(&d.from).copied().unwrap_or_else(|| addr_of(d.from)),
@@ -632,7 +644,7 @@ impl<P: Protocol> Sim<P> {
                 break;
             }
             let m = self.queue.swap_remove(k);
-            let info = InFlightInfo { id: m.id, src: m.src, to: m.to, len: m.bytes.len(), first: m.bytes.first().copied() };
+            let info = InFlightInfo { id: m.id, src: m.src, to: m.to, len: m.bytes.len(), first: m.bytes.first().copied(), head: if m.bytes.len() >= 8 { Some(m.bytes[..8].to_vec()) } else { None } };
             let res = self.present_from((m.to - 1) as usize, m.src, &m.bytes, m.orig, m.id);
             out.push((info, res));
         }
@@ -723,6 +735,8 @@ pub struct InFlightInfo {
     pub to: u16,
     pub len: usize,
     pub first: Option<u8>,
+    /// the first 8 bytes (envelope header of a sealed datagram)
+    pub head: Option<Vec<u8>>,
 }
 
 // ---------------------------------------------------------------------------------------------- frames
